@@ -32,9 +32,13 @@ Types
                                         only be moved, stored (`vec![x; n]`, struct fields), indexed out of a vector and — with the bound
                                         `T: PartialEq` (Lean: `[BEq E<i>]`) — compared as whole vectors (B4).  Bounds `Clone`, `Copy` need nothing;
                                         any other bound makes the impl untranslatable (an error only if one of its functions is requested).
+  T8  `Option<int>`                     a Lean `Option Int` (one component); values are only built — `None` = `none`, `Some(e)` = `(some ⟦e⟧)` — and returned
+      Lifetime parameters and `&'a` annotations are dropped (they do not change what the code computes).
   T3  integer literals take their type from the context, by unification, default `i32` (two passes: the first only resolves
       literal types, the second emits); a literal that does not fit its type is an error.
 Items
+  I6  `macro_rules! m { ($a:ident, $b:ident) => { impl … } }` (one rule, `:ident` parameters only) + `m!(X, y);`      expanded by token
+      substitution at every item-level invocation and parsed as impl blocks (`impl<const N: usize> $trait for &Bitset<N> { fn $func … }`).
   I3  `impl<const …> S<…> { fn … }`, `impl<const …> Trait for S<…> { fn … }`      one `def` per translated function, named after the
       function.  Receivers: `self`, `&self` → the struct value is a parameter; `&mut self` → additionally the function returns
       the new struct value: `Self'` if the Rust function returns `()`, `(Self' × R')` otherwise.
@@ -62,6 +66,10 @@ Expressions (integers; `t` = the static type of the operation, `T` its Lean term
   M12 `assert!(c)`                       [guard ¬ (⟦c⟧) ⇒ `Panic.assert`]; a message `assert!(c, "…", args)` is not translated (it is only
                                         evaluated when the assertion has already failed)
   M12' `assert_eq!(a, b)`                = `assert!(a == b)`: ⟦a⟧, then ⟦b⟧, [guard ¬ (⟦a⟧ = ⟦b⟧) ⇒ `Panic.assert`]   (a message is skipped as in M12)
+  M14 `!e` on an integer                `(IntTy.wrap T (-⟦e⟧ - 1))`  (two's complement: `2^bits - 1 - e` for unsigned types)
+  M8' `x.bitand(y)`, `.bitor`, `.bitxor`; `p.bitand_assign(y);` …      = `x & y` …; `p &= y;` … (M8; also `p |= e`, `p[i] ^= e` for places, V6)
+  M15 `e.count_ones()`                   `(SrcInt.countOnes T ⟦e⟧)` : u32      TRUSTED primitives of `Generated/ArrPrelude.lean` (bit recursion over the
+  M16 `e.trailing_zeros()`               `(SrcInt.trailingZeros T ⟦e⟧)` : u32   `T.bits` bits of the two's-complement pattern; `trailing_zeros(0) = bits`)
   M13 `e1.rem_euclid(e2)`                guards as M5, term `(Int.emod ⟦e1⟧ ⟦e2⟧)`   (the non-negative remainder)
 Expressions (`bool`)
   B1  `true`, `false`                    `true`, `false`
@@ -94,12 +102,23 @@ files that use A2 / A3)
                                         checked (overflow ⇒ `Panic.overflow`), left to right; `t` must be the element type.  `.iter()` in any
                                         other position: error
   A4  `e.to_vec()`, `e.clone()` on a `Vec` / array / slice      ⟦e⟧ (a copy is the same value)
+  A5  `e.iter().map(|x| body).sum::<t>()`      [bind v ← SrcVec.sum T (Array.map (fun x => ⟦body⟧) ⟦e⟧)]: std's `fold(0, |a, b| a + b)`, every addition
+                                        checked; the closure has one parameter and a body without preamble (cannot panic, no calls); a
+                                        closure anywhere else: error
+  V9  `p.fill(x);`                       `p` is rebound to `(SrcVec.fill ⟦p⟧ ⟦x⟧)` (same length, every element `x`)
 Statements (besides S1–S9, S1' and S7' of rs2lean.py)
   S10 `for i in a..b { B }`, `for _ in a..b { B }`      `let mut #i = a; let #n = b; while #i < #n { let i = #i; B; #i = #i + 1 }` with S7; the step is
                                         not overflow-checked (`#i < #n ≤ MAX`); the bounds are evaluated once, in order; `..=`, `.rev()`,
                                         other iterators: error
   S10' `for i in (a..b).rev() { B }`     `let #n = a; let mut #i = b; while #n < #i { #i = #i - 1; let i = #i; B }` (the step cannot underflow
                                         because `#n < #i`); the bounds are evaluated once, `a` first
+  S13 `for P in I { B }`, I ::= `e.iter()` | `e.iter_mut()` | `I.zip(I')` | `I.enumerate()`, `e` a variable or a field of one
+                                        `let #m = LEN(I); for #k in 0..#m { <bindings of P at position #k>; B }` (then S10) with LEN(e.iter()) = `e.len()`,
+                                        LEN(zip) = `LEN(I).min(LEN(I'))`, LEN(enumerate) = LEN(I).  An element of `e.iter()` is bound by `let x = e[#k]`,
+                                        the index of `enumerate` by `let i = #k`; an element `x` of `e.iter_mut()` is the PLACE `e[#k]`: every `x` in
+                                        `B` is replaced by it (`*x = v` is `e[#k] = v`, `x.bitand_assign(y)` is `e[#k] &= y`).  The indexing is the
+                                        checked V1/V6 (it cannot fail because `#k < LEN`); any other iterator adaptor: error
+  S12' `while a && b { B }` where ⟦b⟧ has a preamble      `while a { if !b { break; } B }` (S11): `b` is only evaluated when `a` holds, as in Rust
   S11 `break;` inside a `while` / `for` body (at any depth of `if`s, last statement of its block)      `.ok ⟨the loop's state⟩` — the loop's
                                         definition returns, the code after the loop goes on with that state; `continue`, `break` with
                                         statements after it, `break` outside a loop: error (`loop { if c { break; } … }` stays S7')
